@@ -480,10 +480,234 @@ variable {K : Type} [Field K] [LinearOrder K] [IsStrictOrderedRing K]
                         [(line_tOfPoint_sworn_v p0x p0y p1x p1y v2 v3), (line_tOfPoint_sworn_v q0x q0y q1x q1y v2 v3)]
 
 
+/-- Line(p0,p1).intersections(ray) for the horizontal ray from (lx, py) to (px, py) that windingNumberOfPoint builds: [t1, t2] or [] -/
+
+@[gen_def] def ray_line (p0x p0y p1x p1y lx px py : K) : List K :=
+  if isclose lx px ((1 : K) / 1000000000) (0 : K) then
+    if isclose p0x p1x ((1 : K) / 1000000000) (0 : K) then
+      []
+    else
+      if isclose p0y p1y ((1 : K) / 1000000000) (0 : K) then
+        []
+      else
+        []
+  else
+    if isclose p0y p1y ((1 : K) / 1000000000) (0 : K) then
+      []
+    else
+      if isclose p0x p1x ((1 : K) / 1000000000) (0 : K) then
+        if isclose p1x p0x ((1 : K) / 1000000000) (0 : K) then
+          if (line_tOfPoint_sworn_v p0x p0y p1x p1y p0x ((((py - py) / (px - lx)) * (p0x - lx)) + py)) < ((1 : K) / 5000000) then
+            []
+          else
+            if (line_tOfPoint_sworn_v p0x p0y p1x p1y p0x ((((py - py) / (px - lx)) * (p0x - lx)) + py)) > ((5000001 : K) / 5000000) then
+              []
+            else
+              if (line_tOfPoint_sworn_v lx py px py p0x ((((py - py) / (px - lx)) * (p0x - lx)) + py)) < ((1 : K) / 5000000) then
+                []
+              else
+                if (line_tOfPoint_sworn_v lx py px py p0x ((((py - py) / (px - lx)) * (p0x - lx)) + py)) > ((5000001 : K) / 5000000) then
+                  []
+                else
+                  let v0 := ((((py - py) / (px - lx)) * (p0x - lx)) + py)
+                  [(line_tOfPoint_sworn_v p0x p0y p1x p1y p0x v0), (line_tOfPoint_sworn_v lx py px py p0x v0)]
+        else
+          if |(((p1y - p0y) / (p1x - p0x)) - ((py - py) / (px - lx)))| < ((1 : K) / 5000000) then
+            []
+          else
+            if (((((((((p1y - p0y) / (p1x - p0x)) * p0x) - p0y) - (((py - py) / (px - lx)) * lx)) + py) / (((p1y - p0y) / (p1x - p0x)) - ((py - py) / (px - lx)))) - p0x) * (p1x - p0x)) ≤ (0 : K) then
+              if ((((((p1y - p0y) / (p1x - p0x)) * ((((((((p1y - p0y) / (p1x - p0x)) * p0x) - p0y) - (((py - py) / (px - lx)) * lx)) + py) / (((p1y - p0y) / (p1x - p0x)) - ((py - py) / (px - lx)))) - p0x)) + p0y) - p0y) * (p1y - p0y)) ≤ (0 : K) then
+                []
+              else
+                if (((((((((p1y - p0y) / (p1x - p0x)) * p0x) - p0y) - (((py - py) / (px - lx)) * lx)) + py) / (((p1y - p0y) / (p1x - p0x)) - ((py - py) / (px - lx)))) - px) * (lx - px)) ≤ (0 : K) then
+                  if ((((((p1y - p0y) / (p1x - p0x)) * ((((((((p1y - p0y) / (p1x - p0x)) * p0x) - p0y) - (((py - py) / (px - lx)) * lx)) + py) / (((p1y - p0y) / (p1x - p0x)) - ((py - py) / (px - lx)))) - p0x)) + p0y) - py) * (py - py)) ≤ (0 : K) then
+                    []
+                  else
+                    if (line_tOfPoint_sworn_v p0x p0y p1x p1y (((((((p1y - p0y) / (p1x - p0x)) * p0x) - p0y) - (((py - py) / (px - lx)) * lx)) + py) / (((p1y - p0y) / (p1x - p0x)) - ((py - py) / (px - lx)))) ((((p1y - p0y) / (p1x - p0x)) * ((((((((p1y - p0y) / (p1x - p0x)) * p0x) - p0y) - (((py - py) / (px - lx)) * lx)) + py) / (((p1y - p0y) / (p1x - p0x)) - ((py - py) / (px - lx)))) - p0x)) + p0y)) < ((1 : K) / 5000000) then
+                      []
+                    else
+                      if (line_tOfPoint_sworn_v p0x p0y p1x p1y (((((((p1y - p0y) / (p1x - p0x)) * p0x) - p0y) - (((py - py) / (px - lx)) * lx)) + py) / (((p1y - p0y) / (p1x - p0x)) - ((py - py) / (px - lx)))) ((((p1y - p0y) / (p1x - p0x)) * ((((((((p1y - p0y) / (p1x - p0x)) * p0x) - p0y) - (((py - py) / (px - lx)) * lx)) + py) / (((p1y - p0y) / (p1x - p0x)) - ((py - py) / (px - lx)))) - p0x)) + p0y)) > ((5000001 : K) / 5000000) then
+                        []
+                      else
+                        if (line_tOfPoint_sworn_v lx py px py (((((((p1y - p0y) / (p1x - p0x)) * p0x) - p0y) - (((py - py) / (px - lx)) * lx)) + py) / (((p1y - p0y) / (p1x - p0x)) - ((py - py) / (px - lx)))) ((((p1y - p0y) / (p1x - p0x)) * ((((((((p1y - p0y) / (p1x - p0x)) * p0x) - p0y) - (((py - py) / (px - lx)) * lx)) + py) / (((p1y - p0y) / (p1x - p0x)) - ((py - py) / (px - lx)))) - p0x)) + p0y)) < ((1 : K) / 5000000) then
+                          []
+                        else
+                          if (line_tOfPoint_sworn_v lx py px py (((((((p1y - p0y) / (p1x - p0x)) * p0x) - p0y) - (((py - py) / (px - lx)) * lx)) + py) / (((p1y - p0y) / (p1x - p0x)) - ((py - py) / (px - lx)))) ((((p1y - p0y) / (p1x - p0x)) * ((((((((p1y - p0y) / (p1x - p0x)) * p0x) - p0y) - (((py - py) / (px - lx)) * lx)) + py) / (((p1y - p0y) / (p1x - p0x)) - ((py - py) / (px - lx)))) - p0x)) + p0y)) > ((5000001 : K) / 5000000) then
+                            []
+                          else
+                            let v0 := ((p1y - p0y) / (p1x - p0x))
+                            let v1 := ((py - py) / (px - lx))
+                            let v2 := (((((v0 * p0x) - p0y) - (v1 * lx)) + py) / (v0 - v1))
+                            let v3 := ((v0 * (v2 - p0x)) + p0y)
+                            [(line_tOfPoint_sworn_v p0x p0y p1x p1y v2 v3), (line_tOfPoint_sworn_v lx py px py v2 v3)]
+                else
+                  if (line_tOfPoint_sworn_v p0x p0y p1x p1y (((((((p1y - p0y) / (p1x - p0x)) * p0x) - p0y) - (((py - py) / (px - lx)) * lx)) + py) / (((p1y - p0y) / (p1x - p0x)) - ((py - py) / (px - lx)))) ((((p1y - p0y) / (p1x - p0x)) * ((((((((p1y - p0y) / (p1x - p0x)) * p0x) - p0y) - (((py - py) / (px - lx)) * lx)) + py) / (((p1y - p0y) / (p1x - p0x)) - ((py - py) / (px - lx)))) - p0x)) + p0y)) < ((1 : K) / 5000000) then
+                    []
+                  else
+                    if (line_tOfPoint_sworn_v p0x p0y p1x p1y (((((((p1y - p0y) / (p1x - p0x)) * p0x) - p0y) - (((py - py) / (px - lx)) * lx)) + py) / (((p1y - p0y) / (p1x - p0x)) - ((py - py) / (px - lx)))) ((((p1y - p0y) / (p1x - p0x)) * ((((((((p1y - p0y) / (p1x - p0x)) * p0x) - p0y) - (((py - py) / (px - lx)) * lx)) + py) / (((p1y - p0y) / (p1x - p0x)) - ((py - py) / (px - lx)))) - p0x)) + p0y)) > ((5000001 : K) / 5000000) then
+                      []
+                    else
+                      if (line_tOfPoint_sworn_v lx py px py (((((((p1y - p0y) / (p1x - p0x)) * p0x) - p0y) - (((py - py) / (px - lx)) * lx)) + py) / (((p1y - p0y) / (p1x - p0x)) - ((py - py) / (px - lx)))) ((((p1y - p0y) / (p1x - p0x)) * ((((((((p1y - p0y) / (p1x - p0x)) * p0x) - p0y) - (((py - py) / (px - lx)) * lx)) + py) / (((p1y - p0y) / (p1x - p0x)) - ((py - py) / (px - lx)))) - p0x)) + p0y)) < ((1 : K) / 5000000) then
+                        []
+                      else
+                        if (line_tOfPoint_sworn_v lx py px py (((((((p1y - p0y) / (p1x - p0x)) * p0x) - p0y) - (((py - py) / (px - lx)) * lx)) + py) / (((p1y - p0y) / (p1x - p0x)) - ((py - py) / (px - lx)))) ((((p1y - p0y) / (p1x - p0x)) * ((((((((p1y - p0y) / (p1x - p0x)) * p0x) - p0y) - (((py - py) / (px - lx)) * lx)) + py) / (((p1y - p0y) / (p1x - p0x)) - ((py - py) / (px - lx)))) - p0x)) + p0y)) > ((5000001 : K) / 5000000) then
+                          []
+                        else
+                          let v0 := ((p1y - p0y) / (p1x - p0x))
+                          let v1 := ((py - py) / (px - lx))
+                          let v2 := (((((v0 * p0x) - p0y) - (v1 * lx)) + py) / (v0 - v1))
+                          let v3 := ((v0 * (v2 - p0x)) + p0y)
+                          [(line_tOfPoint_sworn_v p0x p0y p1x p1y v2 v3), (line_tOfPoint_sworn_v lx py px py v2 v3)]
+            else
+              if (((((((((p1y - p0y) / (p1x - p0x)) * p0x) - p0y) - (((py - py) / (px - lx)) * lx)) + py) / (((p1y - p0y) / (p1x - p0x)) - ((py - py) / (px - lx)))) - px) * (lx - px)) ≤ (0 : K) then
+                if ((((((p1y - p0y) / (p1x - p0x)) * ((((((((p1y - p0y) / (p1x - p0x)) * p0x) - p0y) - (((py - py) / (px - lx)) * lx)) + py) / (((p1y - p0y) / (p1x - p0x)) - ((py - py) / (px - lx)))) - p0x)) + p0y) - py) * (py - py)) ≤ (0 : K) then
+                  []
+                else
+                  if (line_tOfPoint_sworn_v p0x p0y p1x p1y (((((((p1y - p0y) / (p1x - p0x)) * p0x) - p0y) - (((py - py) / (px - lx)) * lx)) + py) / (((p1y - p0y) / (p1x - p0x)) - ((py - py) / (px - lx)))) ((((p1y - p0y) / (p1x - p0x)) * ((((((((p1y - p0y) / (p1x - p0x)) * p0x) - p0y) - (((py - py) / (px - lx)) * lx)) + py) / (((p1y - p0y) / (p1x - p0x)) - ((py - py) / (px - lx)))) - p0x)) + p0y)) < ((1 : K) / 5000000) then
+                    []
+                  else
+                    if (line_tOfPoint_sworn_v p0x p0y p1x p1y (((((((p1y - p0y) / (p1x - p0x)) * p0x) - p0y) - (((py - py) / (px - lx)) * lx)) + py) / (((p1y - p0y) / (p1x - p0x)) - ((py - py) / (px - lx)))) ((((p1y - p0y) / (p1x - p0x)) * ((((((((p1y - p0y) / (p1x - p0x)) * p0x) - p0y) - (((py - py) / (px - lx)) * lx)) + py) / (((p1y - p0y) / (p1x - p0x)) - ((py - py) / (px - lx)))) - p0x)) + p0y)) > ((5000001 : K) / 5000000) then
+                      []
+                    else
+                      if (line_tOfPoint_sworn_v lx py px py (((((((p1y - p0y) / (p1x - p0x)) * p0x) - p0y) - (((py - py) / (px - lx)) * lx)) + py) / (((p1y - p0y) / (p1x - p0x)) - ((py - py) / (px - lx)))) ((((p1y - p0y) / (p1x - p0x)) * ((((((((p1y - p0y) / (p1x - p0x)) * p0x) - p0y) - (((py - py) / (px - lx)) * lx)) + py) / (((p1y - p0y) / (p1x - p0x)) - ((py - py) / (px - lx)))) - p0x)) + p0y)) < ((1 : K) / 5000000) then
+                        []
+                      else
+                        if (line_tOfPoint_sworn_v lx py px py (((((((p1y - p0y) / (p1x - p0x)) * p0x) - p0y) - (((py - py) / (px - lx)) * lx)) + py) / (((p1y - p0y) / (p1x - p0x)) - ((py - py) / (px - lx)))) ((((p1y - p0y) / (p1x - p0x)) * ((((((((p1y - p0y) / (p1x - p0x)) * p0x) - p0y) - (((py - py) / (px - lx)) * lx)) + py) / (((p1y - p0y) / (p1x - p0x)) - ((py - py) / (px - lx)))) - p0x)) + p0y)) > ((5000001 : K) / 5000000) then
+                          []
+                        else
+                          let v0 := ((p1y - p0y) / (p1x - p0x))
+                          let v1 := ((py - py) / (px - lx))
+                          let v2 := (((((v0 * p0x) - p0y) - (v1 * lx)) + py) / (v0 - v1))
+                          let v3 := ((v0 * (v2 - p0x)) + p0y)
+                          [(line_tOfPoint_sworn_v p0x p0y p1x p1y v2 v3), (line_tOfPoint_sworn_v lx py px py v2 v3)]
+              else
+                if (line_tOfPoint_sworn_v p0x p0y p1x p1y (((((((p1y - p0y) / (p1x - p0x)) * p0x) - p0y) - (((py - py) / (px - lx)) * lx)) + py) / (((p1y - p0y) / (p1x - p0x)) - ((py - py) / (px - lx)))) ((((p1y - p0y) / (p1x - p0x)) * ((((((((p1y - p0y) / (p1x - p0x)) * p0x) - p0y) - (((py - py) / (px - lx)) * lx)) + py) / (((p1y - p0y) / (p1x - p0x)) - ((py - py) / (px - lx)))) - p0x)) + p0y)) < ((1 : K) / 5000000) then
+                  []
+                else
+                  if (line_tOfPoint_sworn_v p0x p0y p1x p1y (((((((p1y - p0y) / (p1x - p0x)) * p0x) - p0y) - (((py - py) / (px - lx)) * lx)) + py) / (((p1y - p0y) / (p1x - p0x)) - ((py - py) / (px - lx)))) ((((p1y - p0y) / (p1x - p0x)) * ((((((((p1y - p0y) / (p1x - p0x)) * p0x) - p0y) - (((py - py) / (px - lx)) * lx)) + py) / (((p1y - p0y) / (p1x - p0x)) - ((py - py) / (px - lx)))) - p0x)) + p0y)) > ((5000001 : K) / 5000000) then
+                    []
+                  else
+                    if (line_tOfPoint_sworn_v lx py px py (((((((p1y - p0y) / (p1x - p0x)) * p0x) - p0y) - (((py - py) / (px - lx)) * lx)) + py) / (((p1y - p0y) / (p1x - p0x)) - ((py - py) / (px - lx)))) ((((p1y - p0y) / (p1x - p0x)) * ((((((((p1y - p0y) / (p1x - p0x)) * p0x) - p0y) - (((py - py) / (px - lx)) * lx)) + py) / (((p1y - p0y) / (p1x - p0x)) - ((py - py) / (px - lx)))) - p0x)) + p0y)) < ((1 : K) / 5000000) then
+                      []
+                    else
+                      if (line_tOfPoint_sworn_v lx py px py (((((((p1y - p0y) / (p1x - p0x)) * p0x) - p0y) - (((py - py) / (px - lx)) * lx)) + py) / (((p1y - p0y) / (p1x - p0x)) - ((py - py) / (px - lx)))) ((((p1y - p0y) / (p1x - p0x)) * ((((((((p1y - p0y) / (p1x - p0x)) * p0x) - p0y) - (((py - py) / (px - lx)) * lx)) + py) / (((p1y - p0y) / (p1x - p0x)) - ((py - py) / (px - lx)))) - p0x)) + p0y)) > ((5000001 : K) / 5000000) then
+                        []
+                      else
+                        let v0 := ((p1y - p0y) / (p1x - p0x))
+                        let v1 := ((py - py) / (px - lx))
+                        let v2 := (((((v0 * p0x) - p0y) - (v1 * lx)) + py) / (v0 - v1))
+                        let v3 := ((v0 * (v2 - p0x)) + p0y)
+                        [(line_tOfPoint_sworn_v p0x p0y p1x p1y v2 v3), (line_tOfPoint_sworn_v lx py px py v2 v3)]
+      else
+        if isclose p1x p0x ((1 : K) / 1000000000) (0 : K) then
+          if (line_tOfPoint_sworn_v p0x p0y p1x p1y p0x ((((py - py) / (px - lx)) * (p0x - lx)) + py)) < ((1 : K) / 5000000) then
+            []
+          else
+            if (line_tOfPoint_sworn_v p0x p0y p1x p1y p0x ((((py - py) / (px - lx)) * (p0x - lx)) + py)) > ((5000001 : K) / 5000000) then
+              []
+            else
+              if (line_tOfPoint_sworn_v lx py px py p0x ((((py - py) / (px - lx)) * (p0x - lx)) + py)) < ((1 : K) / 5000000) then
+                []
+              else
+                if (line_tOfPoint_sworn_v lx py px py p0x ((((py - py) / (px - lx)) * (p0x - lx)) + py)) > ((5000001 : K) / 5000000) then
+                  []
+                else
+                  let v0 := ((((py - py) / (px - lx)) * (p0x - lx)) + py)
+                  [(line_tOfPoint_sworn_v p0x p0y p1x p1y p0x v0), (line_tOfPoint_sworn_v lx py px py p0x v0)]
+        else
+          if |(((p1y - p0y) / (p1x - p0x)) - ((py - py) / (px - lx)))| < ((1 : K) / 5000000) then
+            []
+          else
+            if (((((((((p1y - p0y) / (p1x - p0x)) * p0x) - p0y) - (((py - py) / (px - lx)) * lx)) + py) / (((p1y - p0y) / (p1x - p0x)) - ((py - py) / (px - lx)))) - p0x) * (p1x - p0x)) ≤ (0 : K) then
+              if ((((((p1y - p0y) / (p1x - p0x)) * ((((((((p1y - p0y) / (p1x - p0x)) * p0x) - p0y) - (((py - py) / (px - lx)) * lx)) + py) / (((p1y - p0y) / (p1x - p0x)) - ((py - py) / (px - lx)))) - p0x)) + p0y) - p0y) * (p1y - p0y)) ≤ (0 : K) then
+                []
+              else
+                if (((((((((p1y - p0y) / (p1x - p0x)) * p0x) - p0y) - (((py - py) / (px - lx)) * lx)) + py) / (((p1y - p0y) / (p1x - p0x)) - ((py - py) / (px - lx)))) - px) * (lx - px)) ≤ (0 : K) then
+                  if ((((((p1y - p0y) / (p1x - p0x)) * ((((((((p1y - p0y) / (p1x - p0x)) * p0x) - p0y) - (((py - py) / (px - lx)) * lx)) + py) / (((p1y - p0y) / (p1x - p0x)) - ((py - py) / (px - lx)))) - p0x)) + p0y) - py) * (py - py)) ≤ (0 : K) then
+                    []
+                  else
+                    if (line_tOfPoint_sworn_v p0x p0y p1x p1y (((((((p1y - p0y) / (p1x - p0x)) * p0x) - p0y) - (((py - py) / (px - lx)) * lx)) + py) / (((p1y - p0y) / (p1x - p0x)) - ((py - py) / (px - lx)))) ((((p1y - p0y) / (p1x - p0x)) * ((((((((p1y - p0y) / (p1x - p0x)) * p0x) - p0y) - (((py - py) / (px - lx)) * lx)) + py) / (((p1y - p0y) / (p1x - p0x)) - ((py - py) / (px - lx)))) - p0x)) + p0y)) < ((1 : K) / 5000000) then
+                      []
+                    else
+                      if (line_tOfPoint_sworn_v p0x p0y p1x p1y (((((((p1y - p0y) / (p1x - p0x)) * p0x) - p0y) - (((py - py) / (px - lx)) * lx)) + py) / (((p1y - p0y) / (p1x - p0x)) - ((py - py) / (px - lx)))) ((((p1y - p0y) / (p1x - p0x)) * ((((((((p1y - p0y) / (p1x - p0x)) * p0x) - p0y) - (((py - py) / (px - lx)) * lx)) + py) / (((p1y - p0y) / (p1x - p0x)) - ((py - py) / (px - lx)))) - p0x)) + p0y)) > ((5000001 : K) / 5000000) then
+                        []
+                      else
+                        if (line_tOfPoint_sworn_v lx py px py (((((((p1y - p0y) / (p1x - p0x)) * p0x) - p0y) - (((py - py) / (px - lx)) * lx)) + py) / (((p1y - p0y) / (p1x - p0x)) - ((py - py) / (px - lx)))) ((((p1y - p0y) / (p1x - p0x)) * ((((((((p1y - p0y) / (p1x - p0x)) * p0x) - p0y) - (((py - py) / (px - lx)) * lx)) + py) / (((p1y - p0y) / (p1x - p0x)) - ((py - py) / (px - lx)))) - p0x)) + p0y)) < ((1 : K) / 5000000) then
+                          []
+                        else
+                          if (line_tOfPoint_sworn_v lx py px py (((((((p1y - p0y) / (p1x - p0x)) * p0x) - p0y) - (((py - py) / (px - lx)) * lx)) + py) / (((p1y - p0y) / (p1x - p0x)) - ((py - py) / (px - lx)))) ((((p1y - p0y) / (p1x - p0x)) * ((((((((p1y - p0y) / (p1x - p0x)) * p0x) - p0y) - (((py - py) / (px - lx)) * lx)) + py) / (((p1y - p0y) / (p1x - p0x)) - ((py - py) / (px - lx)))) - p0x)) + p0y)) > ((5000001 : K) / 5000000) then
+                            []
+                          else
+                            let v0 := ((p1y - p0y) / (p1x - p0x))
+                            let v1 := ((py - py) / (px - lx))
+                            let v2 := (((((v0 * p0x) - p0y) - (v1 * lx)) + py) / (v0 - v1))
+                            let v3 := ((v0 * (v2 - p0x)) + p0y)
+                            [(line_tOfPoint_sworn_v p0x p0y p1x p1y v2 v3), (line_tOfPoint_sworn_v lx py px py v2 v3)]
+                else
+                  if (line_tOfPoint_sworn_v p0x p0y p1x p1y (((((((p1y - p0y) / (p1x - p0x)) * p0x) - p0y) - (((py - py) / (px - lx)) * lx)) + py) / (((p1y - p0y) / (p1x - p0x)) - ((py - py) / (px - lx)))) ((((p1y - p0y) / (p1x - p0x)) * ((((((((p1y - p0y) / (p1x - p0x)) * p0x) - p0y) - (((py - py) / (px - lx)) * lx)) + py) / (((p1y - p0y) / (p1x - p0x)) - ((py - py) / (px - lx)))) - p0x)) + p0y)) < ((1 : K) / 5000000) then
+                    []
+                  else
+                    if (line_tOfPoint_sworn_v p0x p0y p1x p1y (((((((p1y - p0y) / (p1x - p0x)) * p0x) - p0y) - (((py - py) / (px - lx)) * lx)) + py) / (((p1y - p0y) / (p1x - p0x)) - ((py - py) / (px - lx)))) ((((p1y - p0y) / (p1x - p0x)) * ((((((((p1y - p0y) / (p1x - p0x)) * p0x) - p0y) - (((py - py) / (px - lx)) * lx)) + py) / (((p1y - p0y) / (p1x - p0x)) - ((py - py) / (px - lx)))) - p0x)) + p0y)) > ((5000001 : K) / 5000000) then
+                      []
+                    else
+                      if (line_tOfPoint_sworn_v lx py px py (((((((p1y - p0y) / (p1x - p0x)) * p0x) - p0y) - (((py - py) / (px - lx)) * lx)) + py) / (((p1y - p0y) / (p1x - p0x)) - ((py - py) / (px - lx)))) ((((p1y - p0y) / (p1x - p0x)) * ((((((((p1y - p0y) / (p1x - p0x)) * p0x) - p0y) - (((py - py) / (px - lx)) * lx)) + py) / (((p1y - p0y) / (p1x - p0x)) - ((py - py) / (px - lx)))) - p0x)) + p0y)) < ((1 : K) / 5000000) then
+                        []
+                      else
+                        if (line_tOfPoint_sworn_v lx py px py (((((((p1y - p0y) / (p1x - p0x)) * p0x) - p0y) - (((py - py) / (px - lx)) * lx)) + py) / (((p1y - p0y) / (p1x - p0x)) - ((py - py) / (px - lx)))) ((((p1y - p0y) / (p1x - p0x)) * ((((((((p1y - p0y) / (p1x - p0x)) * p0x) - p0y) - (((py - py) / (px - lx)) * lx)) + py) / (((p1y - p0y) / (p1x - p0x)) - ((py - py) / (px - lx)))) - p0x)) + p0y)) > ((5000001 : K) / 5000000) then
+                          []
+                        else
+                          let v0 := ((p1y - p0y) / (p1x - p0x))
+                          let v1 := ((py - py) / (px - lx))
+                          let v2 := (((((v0 * p0x) - p0y) - (v1 * lx)) + py) / (v0 - v1))
+                          let v3 := ((v0 * (v2 - p0x)) + p0y)
+                          [(line_tOfPoint_sworn_v p0x p0y p1x p1y v2 v3), (line_tOfPoint_sworn_v lx py px py v2 v3)]
+            else
+              if (((((((((p1y - p0y) / (p1x - p0x)) * p0x) - p0y) - (((py - py) / (px - lx)) * lx)) + py) / (((p1y - p0y) / (p1x - p0x)) - ((py - py) / (px - lx)))) - px) * (lx - px)) ≤ (0 : K) then
+                if ((((((p1y - p0y) / (p1x - p0x)) * ((((((((p1y - p0y) / (p1x - p0x)) * p0x) - p0y) - (((py - py) / (px - lx)) * lx)) + py) / (((p1y - p0y) / (p1x - p0x)) - ((py - py) / (px - lx)))) - p0x)) + p0y) - py) * (py - py)) ≤ (0 : K) then
+                  []
+                else
+                  if (line_tOfPoint_sworn_v p0x p0y p1x p1y (((((((p1y - p0y) / (p1x - p0x)) * p0x) - p0y) - (((py - py) / (px - lx)) * lx)) + py) / (((p1y - p0y) / (p1x - p0x)) - ((py - py) / (px - lx)))) ((((p1y - p0y) / (p1x - p0x)) * ((((((((p1y - p0y) / (p1x - p0x)) * p0x) - p0y) - (((py - py) / (px - lx)) * lx)) + py) / (((p1y - p0y) / (p1x - p0x)) - ((py - py) / (px - lx)))) - p0x)) + p0y)) < ((1 : K) / 5000000) then
+                    []
+                  else
+                    if (line_tOfPoint_sworn_v p0x p0y p1x p1y (((((((p1y - p0y) / (p1x - p0x)) * p0x) - p0y) - (((py - py) / (px - lx)) * lx)) + py) / (((p1y - p0y) / (p1x - p0x)) - ((py - py) / (px - lx)))) ((((p1y - p0y) / (p1x - p0x)) * ((((((((p1y - p0y) / (p1x - p0x)) * p0x) - p0y) - (((py - py) / (px - lx)) * lx)) + py) / (((p1y - p0y) / (p1x - p0x)) - ((py - py) / (px - lx)))) - p0x)) + p0y)) > ((5000001 : K) / 5000000) then
+                      []
+                    else
+                      if (line_tOfPoint_sworn_v lx py px py (((((((p1y - p0y) / (p1x - p0x)) * p0x) - p0y) - (((py - py) / (px - lx)) * lx)) + py) / (((p1y - p0y) / (p1x - p0x)) - ((py - py) / (px - lx)))) ((((p1y - p0y) / (p1x - p0x)) * ((((((((p1y - p0y) / (p1x - p0x)) * p0x) - p0y) - (((py - py) / (px - lx)) * lx)) + py) / (((p1y - p0y) / (p1x - p0x)) - ((py - py) / (px - lx)))) - p0x)) + p0y)) < ((1 : K) / 5000000) then
+                        []
+                      else
+                        if (line_tOfPoint_sworn_v lx py px py (((((((p1y - p0y) / (p1x - p0x)) * p0x) - p0y) - (((py - py) / (px - lx)) * lx)) + py) / (((p1y - p0y) / (p1x - p0x)) - ((py - py) / (px - lx)))) ((((p1y - p0y) / (p1x - p0x)) * ((((((((p1y - p0y) / (p1x - p0x)) * p0x) - p0y) - (((py - py) / (px - lx)) * lx)) + py) / (((p1y - p0y) / (p1x - p0x)) - ((py - py) / (px - lx)))) - p0x)) + p0y)) > ((5000001 : K) / 5000000) then
+                          []
+                        else
+                          let v0 := ((p1y - p0y) / (p1x - p0x))
+                          let v1 := ((py - py) / (px - lx))
+                          let v2 := (((((v0 * p0x) - p0y) - (v1 * lx)) + py) / (v0 - v1))
+                          let v3 := ((v0 * (v2 - p0x)) + p0y)
+                          [(line_tOfPoint_sworn_v p0x p0y p1x p1y v2 v3), (line_tOfPoint_sworn_v lx py px py v2 v3)]
+              else
+                if (line_tOfPoint_sworn_v p0x p0y p1x p1y (((((((p1y - p0y) / (p1x - p0x)) * p0x) - p0y) - (((py - py) / (px - lx)) * lx)) + py) / (((p1y - p0y) / (p1x - p0x)) - ((py - py) / (px - lx)))) ((((p1y - p0y) / (p1x - p0x)) * ((((((((p1y - p0y) / (p1x - p0x)) * p0x) - p0y) - (((py - py) / (px - lx)) * lx)) + py) / (((p1y - p0y) / (p1x - p0x)) - ((py - py) / (px - lx)))) - p0x)) + p0y)) < ((1 : K) / 5000000) then
+                  []
+                else
+                  if (line_tOfPoint_sworn_v p0x p0y p1x p1y (((((((p1y - p0y) / (p1x - p0x)) * p0x) - p0y) - (((py - py) / (px - lx)) * lx)) + py) / (((p1y - p0y) / (p1x - p0x)) - ((py - py) / (px - lx)))) ((((p1y - p0y) / (p1x - p0x)) * ((((((((p1y - p0y) / (p1x - p0x)) * p0x) - p0y) - (((py - py) / (px - lx)) * lx)) + py) / (((p1y - p0y) / (p1x - p0x)) - ((py - py) / (px - lx)))) - p0x)) + p0y)) > ((5000001 : K) / 5000000) then
+                    []
+                  else
+                    if (line_tOfPoint_sworn_v lx py px py (((((((p1y - p0y) / (p1x - p0x)) * p0x) - p0y) - (((py - py) / (px - lx)) * lx)) + py) / (((p1y - p0y) / (p1x - p0x)) - ((py - py) / (px - lx)))) ((((p1y - p0y) / (p1x - p0x)) * ((((((((p1y - p0y) / (p1x - p0x)) * p0x) - p0y) - (((py - py) / (px - lx)) * lx)) + py) / (((p1y - p0y) / (p1x - p0x)) - ((py - py) / (px - lx)))) - p0x)) + p0y)) < ((1 : K) / 5000000) then
+                      []
+                    else
+                      if (line_tOfPoint_sworn_v lx py px py (((((((p1y - p0y) / (p1x - p0x)) * p0x) - p0y) - (((py - py) / (px - lx)) * lx)) + py) / (((p1y - p0y) / (p1x - p0x)) - ((py - py) / (px - lx)))) ((((p1y - p0y) / (p1x - p0x)) * ((((((((p1y - p0y) / (p1x - p0x)) * p0x) - p0y) - (((py - py) / (px - lx)) * lx)) + py) / (((p1y - p0y) / (p1x - p0x)) - ((py - py) / (px - lx)))) - p0x)) + p0y)) > ((5000001 : K) / 5000000) then
+                        []
+                      else
+                        let v0 := ((p1y - p0y) / (p1x - p0x))
+                        let v1 := ((py - py) / (px - lx))
+                        let v2 := (((((v0 * p0x) - p0y) - (v1 * lx)) + py) / (v0 - v1))
+                        let v3 := ((v0 * (v2 - p0x)) + p0y)
+                        [(line_tOfPoint_sworn_v p0x p0y p1x p1y v2 v3), (line_tOfPoint_sworn_v lx py px py v2 v3)]
+
+
 end Gen
 
 /-- evaluation at K = ℚ for the correspondence driver -/
 def Gen.dispatchInter (tbl : FnTable) (name : String) (a : List ℚ) : Option (List ℚ) :=
   match name with
   | "line_line" => if a.length = 8 then some (Gen.line_line (a.getD 0 0) (a.getD 1 0) (a.getD 2 0) (a.getD 3 0) (a.getD 4 0) (a.getD 5 0) (a.getD 6 0) (a.getD 7 0)) else none
+  | "ray_line" => if a.length = 7 then some (Gen.ray_line (a.getD 0 0) (a.getD 1 0) (a.getD 2 0) (a.getD 3 0) (a.getD 4 0) (a.getD 5 0) (a.getD 6 0)) else none
   | _ => none
